@@ -29,7 +29,7 @@ let kind_name (k : fkind) : String.t =
   | FSpecInsert -> "SpecInsert" | FSpecDelete -> "SpecDelete" | FSpecConstraint -> "SpecConstraint"
   | FNoop -> "Noop" | FRoundtrip -> "Roundtrip" | FInterfere -> "Interfere" | FNotRouted -> "NotRouted"
   | FSame -> "Same" | FDumpOf -> "DumpOf"
-  | FBuiltin -> "Builtin" | FOci -> "Oci" | FOciModel -> "OciModel" | FOciName -> "OciName" | FUnknownRouter -> "UnknownRouter" | FArcs -> "Arcs" | FSplitChar -> "SplitChar" | FIndexSearch -> "IndexSearch"
+  | FBuiltin -> "Builtin" | FOci -> "Oci" | FOciModel -> "OciModel" | FOciName -> "OciName" | FUnknownRouter -> "UnknownRouter" | FArcs -> "Arcs" | FSplitChar -> "SplitChar" | FIndexSearch -> "IndexSearch" | FOciE2E -> "OciE2E"
 
 let () =
   let state = ref init_fstate in
@@ -43,7 +43,7 @@ let () =
       if String.length line > 0 && line.[0] <> '#' then begin
         let bl = bytes_of_string line in
         let fs =
-          if String.length line > 3 && String.sub line 0 3 = "oci" then oci_step bl
+          if String.length line > 3 && (String.sub line 0 3 = "oci" || String.sub line 0 3 = "e2e") then oci_step bl
           else begin
             (if stats then match line_stats !state bl with
               | Some ((a, b), c) -> Printf.printf "S %d %d %d %d\n" !lineno (int_of_n a) (int_of_n b) (int_of_n c)
